@@ -341,6 +341,17 @@ func runCaseInner(d *desc, typ el.EventType, variant int, prefill bool) string {
 		return v
 	}
 	prev[variant] = prevRec{e, append([]byte(nil), b...)}
+	// the same node formats another event: what it stored for this one must stay as it is (a node may keep
+	// scratch state between events, the stored line must not be part of it)
+	if wantForward {
+		saved := append([]byte(nil), b...)
+		e2 := &el.Event{Type: "second-event", CreatedAt: created.Add(time.Hour), Formatted: map[string][]byte{}, Payload: map[string]interface{}{"a-rather-different": "payload of the second event through the same node", "n": 123456789}}
+		if _, err2 := node.Process(context.Background(), e2); err2 == nil {
+			if now, _ := e.Format(el.JSONFormat); !bytes.Equal(now, saved) {
+				return fmt.Sprintf("the json line stored for an event changed from %q to %q when the same node formatted the next event", saved, now)
+			}
+		}
+	}
 	return ""
 }
 
